@@ -10,7 +10,7 @@ from collections import Counter
 
 import asyncstdlib as A
 
-from ..loop import run_finalizers, CTX, drive
+from ..loop import run_finalizers, CTX, drive, Driver
 from ..probes import Item, SrcState, Plan, make_source
 
 ID = "C07"
@@ -124,6 +124,18 @@ def cases(tier, seed, shard, nshards):
             idx += 1
             if idx % nshards == shard:
                 yield {"ops": [list(o) for o in hist], "flav": FLAVS[idx % len(FLAVS)], "keys": [0, 1, 2, 0, 1, 3, 1]}
+    # a second task closes the handle while a first one is waiting for an item through it
+    for flav in FLAVS:
+        for reborrow in (False, True):
+            for close_at in (1, 2, 3):
+                for susp in (1, 2):
+                    for via in ("handle", "parent"):
+                        if via == "parent" and not reborrow:
+                            continue
+                        idx += 1
+                        if idx % nshards == shard:
+                            yield {"kind": "conc_close", "flav": flav, "reborrow": reborrow, "close_at": close_at,
+                                   "susp": susp, "via": via}
     rng = random.Random(f"C07-{seed}-{shard}")
     for _ in range(N_RANDOM[tier] // nshards):
         yield {"ops": gen_history(rng), "flav": rng.choice(FLAVS), "keys": [rng.randrange(4) for _ in range(rng.randint(0, 9))]}
@@ -381,13 +393,110 @@ def run_history(case, stats, scoped=None):
     return {"violations": viols, "nontrivial": nontrivial, "sig": (case["flav"], str(keys), str(case["ops"]))}
 
 
+def run_conc_close(case, stats):
+    """Task B closes the handle while task A is suspended inside ``handle.__anext__()`` (in the underlying).
+
+    If that close is refused (CPython: "asynchronous generator is already running") the handle simply stays open.
+    If it returns normally the handle IS closed: every read started afterwards yields nothing and leaves the
+    underlying where it is.  Either way the underlying is never closed and the owner gets the rest in order.
+    """
+    CTX.reset()
+    items = [Item(i, (0, i)) for i in range(6)]
+    st = SrcState(0, list(items), Plan(case["susp"]), log=False)
+    under = make_source(st, case["flav"])
+    parent = A.borrow(under)
+    handle = A.borrow(parent) if case["reborrow"] else parent
+    target = parent if case["via"] == "parent" else handle
+    reads, info = [], {"closed": False}
+
+    async def reader():
+        for _ in range(5):
+            rec = {"pos": st.pos, "after_close": info["closed"]}
+            reads.append(rec)
+            try:
+                rec["got"] = await handle.__anext__()
+            except StopAsyncIteration:
+                rec["got"] = "STOP"
+                break
+            except BaseException as exc:  # noqa: BLE001
+                rec["got"] = ("raised", type(exc).__name__)
+                break
+            finally:
+                rec["pos_after"] = st.pos
+
+    async def closer():
+        try:
+            await target.aclose()
+            info["closed"] = True
+        except RuntimeError as exc:
+            info["refused"] = str(exc)
+
+    step = {"n": 0}
+
+    def choose(runnable):
+        step["n"] += 1
+        if step["n"] <= case["close_at"]:
+            return 0 if 0 in runnable else runnable[0]
+        return 1 if 1 in runnable else runnable[0]
+
+    driver = Driver(choose)
+    driver.spawn("reader", reader())
+    driver.spawn("closer", closer())
+    driver.run()
+    viols = []
+    head = f"borrow under={case['flav']} reborrow={case['reborrow']}: aclose of the {case['via']} while a read through the handle is pending (step {case['close_at']})"
+    for t in driver.tasks:
+        if t.exc is not None:
+            viols.append({"key": "borrow/concurrent-close-raised", "msg": f"{head}: {t.name} ended with {t.exc!r}"})
+    if st.closed or (st.gen is not None and st.gen.ag_frame is None and st.pos < len(items)):
+        viols.append({"key": "borrow/underlying-closed", "msg": f"{head}: the underlying iterator was closed"})
+    if info["closed"] and case["via"] == "handle":
+        stats["concurrent_close_accepted"] += 1
+        for rec in reads:
+            if rec["after_close"] and (rec["got"] != "STOP" or rec["pos_after"] != rec["pos"]):
+                viols.append({"key": "borrow/closed-handle-still-yields",
+                              "msg": f"{head}: aclose() returned normally, yet a later read got {rec['got']!r} and the "
+                                     f"underlying went from {rec['pos']} to {rec['pos_after']} fetched items"})
+                break
+    elif "refused" in info:
+        stats["concurrent_close_refused"] += 1
+    # the owner gets everything not yet fetched, in order
+    rest = []
+
+    async def drain():
+        async for x in under:
+            rest.append(x)
+
+    try:
+        drive(drain())
+    except BaseException as exc:  # noqa: BLE001
+        viols.append({"key": "borrow/owner-cannot-continue", "msg": f"{head}: the owner's iteration raised {exc!r}"})
+    fetched = [r["got"] for r in reads if isinstance(r.get("got"), Item)]
+    seen = fetched + rest
+    if [x.uid for x in seen] != [x.uid for x in items if x in seen] or len(set(x.uid for x in seen)) != len(seen) \
+            or (rest and [x.uid for x in rest] != [x.uid for x in items[len(items) - len(rest):]]):
+        viols.append({"key": "borrow/owner-sequence", "msg": f"{head}: handle delivered {[canon_uid(x) for x in fetched]}, owner then got "
+                                                          f"{[canon_uid(x) for x in rest]}"})
+    if CTX.foreign:
+        viols.append({"key": "borrow/foreign-suspension", "msg": CTX.foreign[0]})
+    run_finalizers()
+    stats["concurrent_close_runs"] += 1
+    return {"violations": viols, "nontrivial": True, "sig": ("conc_close", str(sorted(case.items())))}
+
+
+def canon_uid(x):
+    return getattr(x, "uid", x)
+
+
 def run_case(case, stats: Counter):
+    if case.get("kind") == "conc_close":
+        return run_conc_close(case, stats)
     return run_history(case, stats)
 
 
 def finish(stats, tier):
     for need in ("histories", "handle_closes", "tools_closed", "tools_abandoned", "closed_handle_observed_silent",
-                 "unknown_states_resolved", "owner_drained_items"):
+                 "unknown_states_resolved", "owner_drained_items", "concurrent_close_runs"):
         if not stats.get(need):
             return f"deciding counter {need} is zero"
     return None
